@@ -23,6 +23,9 @@
 //   Together with a grid size: inside the sub-range and inside the grid => the step between the storage offsets of
 //   consecutive positions is what row-major storage says (offset(next) - offset(p) computed by the reference formula).
 //
+// Finally a REAL `for (p : range)` loop over sub-ranges with symbolic bounds in [0,B]^N (B = 6,3,2 for N = 1,2,3 quick; 5,3 for N = 2,3 thorough) is
+// compared with nested reference loops (empty, inverted, 1-wide ranges included).
+//
 // outside the claim: N >= 4; extents >= 2^16 (region where products may overflow size_t; nothing is documented there);
 // grid::interpolate (floating point); grid::output (iostream).
 //@property C08
@@ -306,20 +309,64 @@ template <sz N> void sub(unsigned const lim)
   }
   verif_reach("end");
 }
+
+// ---------------------------------------------------------------- a real loop over a small symbolic sub-range
+// (the induction above, unrolled by the executor: min_i, sup_i symbolic in [0, B], forks over the shapes of the range)
+template <sz N, sz B> void enumerate()
+{
+  arr<N> const mn{sym<N>(n_min, 0)}, sp{sym<N>(n_sup, 0)};
+  for (sz i = 0; i < N; ++i) verif_assume(mn.v[i] <= B && sp.v[i] <= B);
+  constexpr sz cap{128};
+  arr<N> got[cap];
+  sz n{0};
+  grid::pos_range<sz, N> const range{grid::make_pos_range_start_end(grid::min<sz, N>{mk_pos<N>(mn)}, grid::sup<sz, N>{mk_pos<N>(sp)})};
+  for (grid::pos<sz, N> const p : range)
+  {
+    if (n < cap) got[n] = un_pos<N>(p);
+    ++n;
+  }
+  verif_out("n", n);
+  // reference: nested loops, x fastest, nothing unless every min_i < sup_i
+  sz k{0};
+  bool ok{true};
+  if (ref_nonempty(mn, sp))
+  {
+    sz const m1{N >= 2 ? mn.v[N >= 2 ? 1 : 0] : 0}, s1{N >= 2 ? sp.v[N >= 2 ? 1 : 0] : 1};
+    sz const m2{N >= 3 ? mn.v[N >= 3 ? 2 : 0] : 0}, s2{N >= 3 ? sp.v[N >= 3 ? 2 : 0] : 1};
+    for (sz z = m2; z < s2; ++z)
+      for (sz y = m1; y < s1; ++y)
+        for (sz x = mn.v[0]; x < sp.v[0]; ++x)
+        {
+          arr<N> q{};
+          q.v[0] = x;
+          if constexpr (N >= 2) q.v[1] = y;
+          if constexpr (N >= 3) q.v[2] = z;
+          ok = ok && k < n && k < cap && eq(got[k < cap ? k : 0], q);
+          ++k;
+        }
+  }
+  verif_assert(ok && k == n, "the range visits exactly the positions min <= p < sup, x fastest (none if some min_i >= sup_i)");
+  verif_assert(range.size() == n, "size() = number of positions visited");
+  verif_reach("end");
+}
 }
 
 #define H(name, ...) VERIF_HARNESS(name) { __VA_ARGS__; }
+H(h_enumerate_1, enumerate<1, 6>()) H(h_enumerate_2, enumerate<2, 3>()) H(h_enumerate_3, enumerate<3, 2>())
+//@harness h_enumerate_{N} for N in 1,2,3 tier=quick loop=200 hang_s=60
+H(h_enumerate_deep_2, enumerate<2, 5>()) H(h_enumerate_deep_3, enumerate<3, 3>())
+//@harness h_enumerate_deep_{N} for N in 2,3 tier=thorough loop=400 paths=100000 wall=3000 hang_s=60
 // _fit: NO bound on the extents / range bounds other than "the number of cells (positions) is representable in size_t"
 H(h_whole_fit_1, whole<1>(0)) H(h_whole_fit_2, whole<2>(0)) H(h_whole_fit_3, whole<3>(0))
-//@harness h_whole_fit_{N} for N in 1,2,3 tier=quick
+//@harness h_whole_fit_{N} for N in 1,2,3 tier=quick hang_s=60
 H(h_inject_fit_1, inject<1>(0)) H(h_inject_fit_2, inject<2>(0)) H(h_inject_fit_3, inject<3>(0))
-//@harness h_inject_fit_{N} for N in 1,2,3 tier=quick
+//@harness h_inject_fit_{N} for N in 1,2,3 tier=quick hang_s=60
 H(h_sub_fit_1, sub<1>(0)) H(h_sub_fit_2, sub<2>(0)) H(h_sub_fit_3, sub<3>(0))
-//@harness h_sub_fit_{N} for N in 1,2,3 tier=quick
+//@harness h_sub_fit_{N} for N in 1,2,3 tier=quick hang_s=60
 // _16: the bound of the plan (every component < 2^16), kept as an independent, easier instance of the same statements
 H(h_whole_16_1, whole<1>(16)) H(h_whole_16_2, whole<2>(16)) H(h_whole_16_3, whole<3>(16))
-//@harness h_whole_16_{N} for N in 1,2,3 tier=quick
+//@harness h_whole_16_{N} for N in 1,2,3 tier=quick hang_s=60
 H(h_inject_16_1, inject<1>(16)) H(h_inject_16_2, inject<2>(16)) H(h_inject_16_3, inject<3>(16))
-//@harness h_inject_16_{N} for N in 1,2,3 tier=quick
+//@harness h_inject_16_{N} for N in 1,2,3 tier=quick hang_s=60
 H(h_sub_16_1, sub<1>(16)) H(h_sub_16_2, sub<2>(16)) H(h_sub_16_3, sub<3>(16))
-//@harness h_sub_16_{N} for N in 1,2,3 tier=quick
+//@harness h_sub_16_{N} for N in 1,2,3 tier=quick hang_s=60
